@@ -197,3 +197,59 @@ Section Engines.
     destruct (Nat.eqb (fst p) term); reflexivity.
   Qed.
 End Engines.
+
+(* ------------------------------------------------------------------ intervals that do not elapse *)
+Section Pending.
+  Variable readdir : dir -> list Store.name.
+  Variable H : bytes -> bytes.
+  Variable pct : nat -> nat -> Z.
+  Variable clock : nat -> nat -> Z.
+
+  Lemma time_pending_loop arm c pid total term s t :
+    c_policy c = Store.TimeInterval s ->
+    forall chain i idx buf d,
+      interval_pending clock s t idx (idx + List.length chain) ->
+      snd (seq_ckpt_loop readdir H pct clock arm c pid total term i idx chain buf (mk_mgr (Some t) d))
+      = mk_mgr (Some t) d.
+  Proof.
+    intros Hp. induction chain as [|n r IH]; intros i idx buf d Hn; [reflexivity|].
+    cbn [seq_ckpt_loop]. cbn [List.length] in Hn. destruct (arm i term n buf); try reflexivity.
+    assert (Hc : ckpt_after readdir H pct clock c pid total idx n (mk_mgr (Some t) d) = mk_mgr (Some t) d).
+    { unfold ckpt_after. cbn [m_last]. rewrite Hp. destruct (c_enabled c); [|reflexivity].
+      destruct (policy_time_pending t (clock idx 0%nat) s (Z.of_nat idx) (is_barrier n) false
+                                    (Hn idx ltac:(lia))) as [E _].
+      rewrite E. reflexivity. }
+    rewrite Hc. apply IH. intros j Hj. apply Hn. lia.
+  Qed.
+
+  Lemma hybrid_pending_loop arm en s auto max pid total term :
+    forall chain i idx buf m t,
+      (forall j, (idx <= j < idx + List.length chain)%nat ->
+                 interval_pending clock s (clock j 2%nat) idx (idx + List.length chain)) ->
+      m_last m = Some t -> interval_pending clock s t idx (idx + List.length chain) ->
+      seq_ckpt_loop readdir H pct clock arm (mk_cfg en (Store.Hybrid true s) auto max) pid total term i idx chain buf m
+      = seq_ckpt_loop readdir H pct clock arm (mk_cfg en Store.AfterEveryBarrier auto max) pid total term i idx chain buf m.
+  Proof.
+    induction chain as [|n r IH]; intros i idx buf m t Hs Hm Ht; [reflexivity|].
+    cbn [seq_ckpt_loop]. cbn [List.length] in Hs, Ht. destruct (arm i term n buf); try reflexivity.
+    set (c1 := mk_cfg en (Store.Hybrid true s) auto max).
+    set (c2 := mk_cfg en Store.AfterEveryBarrier auto max).
+    assert (Hc : ckpt_after readdir H pct clock c1 pid total idx n m
+                 = ckpt_after readdir H pct clock c2 pid total idx n m).
+    { unfold ckpt_after, c1, c2. cbn [c_enabled c_policy c_max]. rewrite Hm. destruct en; [|reflexivity].
+      destruct (policy_time_pending t (clock idx 0%nat) s (Z.of_nat idx) (is_barrier n) true
+                                    (Ht idx ltac:(lia))) as [_ E].
+      rewrite E. reflexivity. }
+    rewrite Hc.
+    assert (Hl : exists t', m_last (ckpt_after readdir H pct clock c2 pid total idx n m) = Some t'
+                            /\ interval_pending clock s t' (S idx) (S idx + List.length r)).
+    { assert (Hold : interval_pending clock s t (S idx) (S idx + List.length r))
+        by (intros j Hj; apply Ht; lia).
+      unfold ckpt_after. destruct (Store.should_checkpoint _ _ _ _ _ _); [|exists t; split; assumption].
+      destruct (Store.save _ _ _ _) as [[nm | e | ] d']; cbn [m_last];
+        [exists (clock idx 2%nat); split; [reflexivity|] | exists t; split; assumption ..].
+      intros j Hj. apply (Hs idx); lia. }
+    destruct Hl as (t' & Hm' & Ht'). apply (IH _ _ _ _ t'); try assumption.
+    intros j Hj k Hk. apply (Hs j); lia.
+  Qed.
+End Pending.
